@@ -172,9 +172,21 @@ class Adapter:
 
     def run_case(self, case):
         from maltoolbox.attackgraph import AttackGraph
-        ctx = self.ctx_for(case)
         res = {'steps': 1, 'div': [], 'features': list(case['exp'].get('feats', []))}
-        m, objs = build_model(ctx, case['assets'], case['assocs'])
+        try:
+            ctx = self.ctx_for(case)
+        except Exception as e:
+            # the specification's generator only emits well-formed languages: the language graph must accept them
+            d = self.div(case, 'language_graph_raises', {'error': repr(e)[:400]}, [])
+            d['lang_record'] = case['lang'] if not isinstance(case['lang'], str) else None
+            res['div'].append(d)
+            return res
+        try:
+            m, objs = build_model(ctx, case['assets'], case['assocs'])
+        except Exception as e:
+            # the generators only emit models that are valid for the language (C06's guards): they must be accepted
+            res['div'].append(self.div(case, 'valid_model_rejected', {'error': repr(e)[:400]}, []))
+            return res
         mfeats = sorted(case['exp'].get('feats', []))
         try:
             g = AttackGraph(ctx.lang_graph, m)
@@ -203,14 +215,15 @@ class Adapter:
 
     def div(self, case, comp, detail, feats):
         return {'kind': 'divergence', 'action': 'Generate', 'component': comp, 'features': sorted(set(feats)),
-                'detail': detail, 'case': self.brief(case), 'expected': case['exp'], 'adapter': 'harness.replay_graph'}
+                'detail': detail, 'case': self.brief(case), 'expected': case['exp'], 'adapter': 'harness.replay_graph',
+                'lang_record': case['lang'] if not isinstance(case['lang'], str) else None}
 
 
 def replay_divergence(d):
     from harness import common
     from maltoolbox.attackgraph import AttackGraph
     langs = common.dump_langs()
-    case = {'lang': d['case']['lang'], 'assets': d['case']['assets'], 'assocs': d['case']['assocs'], 'exp': d['expected']}
+    case = {'lang': d.get('lang_record') or d['case']['lang'], 'assets': d['case']['assets'], 'assocs': d['case']['assocs'], 'exp': d['expected']}
     ad = Adapter(langs=langs)
     r = ad.run_case(case)
     return bool(r['div']), {'divergences': [{k: v for k, v in x.items() if k in ('component', 'detail', 'features')}
